@@ -6,6 +6,7 @@ DIR="$(cd "$(dirname "${BASH_SOURCE[0]}")/.." && pwd)"
 M="$(realpath "$1")"; shift
 if ! git -C /repo diff --quiet; then echo "/repo working tree is dirty; refusing"; exit 2; fi
 git -C /repo apply "$M" || { echo "cannot apply $M"; exit 2; }
+export VERIF_EVIDENCE_DIR=/verif/work/evidence_scratch
 for c in "$@"; do
   t0=$(date +%s)
   "$DIR/check" "$c" --tier quick > "$DIR/work/selftest.$(basename "$M" .diff).$c.out" 2>&1
